@@ -185,7 +185,9 @@ func sameListing(gs []got, want []pair, strictNil bool) bool {
 			if strictNil && g.v != nil || len(g.v) != 0 {
 				return false
 			}
-		} else if string(g.v) != w.v {
+		} else if string(g.v) != w.v || (strictNil && g.v == nil) {
+			// (a nil value is how a nested bucket is reported: the value of a key, empty
+			// or not, is never nil)
 			return false
 		}
 	}
@@ -405,7 +407,7 @@ func (x *txrun) step(o Op) {
 			if e == nil || e.sub != nil {
 				return g == nil
 			}
-			return string(g) == e.val
+			return g != nil && string(g) == e.val // nil means "no such key", also for an empty value
 		}
 		if !match(mb) {
 			want := "nil"
